@@ -9,4 +9,4 @@ Extraction "c06_model.ml" Qred qsqrt thread_ranges one_eval one_grad two_eval tw
   ef_eval ef_evald wef_eval wef_evald ce_eval ce_evald
   ce_batch_eval ce_batch_evald cev_eval cev_evald huberA_eval huberA_evald absA_eval zow_eval
   net2_ef_eval net2_ef_evald net2_bq_eval
-  nauc_eval nauc_eval_vec seq_eval seq_evald.
+  nauc_eval nauc_eval_vec seq_eval seq_evald nll_eval nll_evald.
